@@ -30,6 +30,7 @@ RULE = ("engines with the General activation method (Mamdani, Larsen, Takagi-Sug
 RULE += (" Stream `engine-io` (fv/streams/engine_io.py): look-ups by name / index (positive, negative, bool, missing), input_values / output_values / values on float, 0-d and 1-D values, the input_values setter with 0-d / 1-D / 2-D / higher-dimensional arrays, against Op/EngineIO.lean and Op/InputValues.lean.")
 RULE += (" Families `special-value history` and `memory layouts` (fv/streams/batch_layouts.py): weighted engines whose constants may be +-inf x batches dense in NaN / +-inf cells and all-NaN rows (every order of finite / +inf / -inf / NaN defuzzified values from one row to the next, also across two calls); engines with 2-3 inputs x the same batch held as columns of a C / Fortran matrix, interleaved, reversed and read-only views, ONE array object for variables that read the same signal, lagged windows of one recording, and input matrices whose columns alias each other: compared with the row-by-row run, and every buffer of the caller (of the plain batches too) must hold afterwards what it held before.")
 RULE += (" Family `no value per row` (fv/streams/batch_layouts.py): engines of the ordinary generator with every output variable disabled, every rule block disabled, both, an enabled output variable that no rule concludes (alone or next to others), every rule disabled, or every input variable disabled x batches of 1..8 rows, also after an earlier call: in EVERY batch case `Engine.output_values` must have one row per row of the inputs and `Engine.values` must not raise and must show, row for row, what the row-by-row run shows.")
+RULE += (" Family `reused buffers` (fv/streams/batch_layouts.py): histories of two or three batches on one engine through array objects the caller allocated ONCE and refills in place before each call - per-variable arrays or the engine-level input matrix, handed over again before every call or before the first call only: every call is compared row for row with the rows the input variables hold at that moment, run one after another with floats on an engine that lives through the same history.")
 ASSUMPTIONS = ["batch and row results are produced by the same float operations, so they are compared within 1e-12; the "
                "model comparison uses 1e-7 and the fragile-point filter of C01"]
 LEVEL_TEXT = ("Lean theorems: batch_eq_rows (the single fill-forward / default / clip pass of OutputVariable.defuzzify over a "
@@ -126,6 +127,89 @@ def run_rows(desc, rows, first=None):
     return {"values": values, "fuzzy": fuzzy, "out_shapes": out_shapes, "all": alls}
 
 
+def rows_on(e, rows):
+    """the rows one after another with plain Python floats on an engine that is in whatever state it is in"""
+    values, fuzzy = [], []
+    for r in rows:
+        try:
+            with np.errstate(all="ignore"):
+                for iv, v in zip(e.input_variables, r):
+                    iv.value = float(v)
+                e.process()
+            values.append([float(np.take(ov.value, -1)) for ov in e.output_variables])
+            fuzzy.append(obs_fuzzy(e, 1)[0])
+        except Exception as ex:  # noqa: BLE001
+            return {"error": type(ex).__name__, "msg": str(ex)[:200], "at_row": len(values)}
+    return {"values": values, "fuzzy": fuzzy}
+
+
+def run_reused(desc, calls, reuse):
+    """several batches on one engine through arrays the caller allocated ONCE (streams/batch_layouts.py, `reused buffers`):
+    before every call the caller writes the rows of that call into them in place; `...-reassigned` hands them over again
+    before every call, `...-refilled` handed them over before the first call only.  Per call: what the input variables hold
+    when `process()` starts (`held`: the batch of that call as the engine sees it), the outputs, and whether a buffer of the
+    caller was changed by the call"""
+    e = G.build(desc)
+    n, k = len(calls[0]), len(calls[0][0])
+    per_var = reuse.startswith("arrays")
+    bufs = [np.empty(n, dtype=float) for _ in range(k)] if per_var else [np.empty((n, k), dtype=float)]
+    owned = [(f"the array of variable {j} (allocated once, refilled before each call)", b) for j, b in enumerate(bufs)] \
+        if per_var else [("the input matrix (allocated once, refilled before each call)", bufs[0])]
+    out = []
+    for c, rows in enumerate(calls):
+        res = {"held": [[float(x) for x in r] for r in rows]}
+        snap = []
+        try:
+            with np.errstate(all="ignore"):
+                if per_var:
+                    for j, b in enumerate(bufs):
+                        b[:] = [float(r[j]) for r in rows]
+                else:
+                    bufs[0][:] = np.array(rows, dtype=float)
+                if c == 0 or reuse.endswith("reassigned"):
+                    if per_var:
+                        for iv, b in zip(e.input_variables, bufs):
+                            iv.value = b
+                    else:
+                        e.input_values = bufs[0]
+                cols = [np.broadcast_to(np.asarray(iv.value, dtype=float), (n,)) for iv in e.input_variables]
+                res["held"] = [[float(col[i]) for col in cols] for i in range(n)]
+                snap = S_BL.snapshot(owned)
+                e.process()
+                vals = np.atleast_2d(e.output_values)
+                if vals.shape[0] != n:
+                    vals = np.broadcast_to(vals, (n, vals.shape[1]))
+                res.update(values=[[float(x) for x in r] for r in vals], fuzzy=obs_fuzzy(e, n), touched=S_BL.touched(snap))
+        except Exception as ex:  # noqa: BLE001
+            res.update(error=type(ex).__name__, msg=str(ex)[:200], touched=S_BL.touched(snap))
+        out.append(res)
+        if "error" in res:
+            break
+    return out
+
+
+def reused_ok(case):
+    """"Giving the input variables arrays of N values and processing once" - every time: the batch of a call is what the
+    arrays hold when `process()` is called, not what the same array objects held at an earlier call.  Each call of the
+    history is compared, row for row, with the rows the input variables hold at that moment run one after another with
+    floats, from the same starting state (one row-by-row engine lives through the whole history)"""
+    desc, calls, reuse = case["engine"], case["calls"], case["reuse"]
+    got = run_reused(desc, calls, reuse)
+    ref = G.build(desc)
+    for c, b in enumerate(got):
+        r = rows_on(ref, b["held"])
+        what = f"call {c + 1} of {len(calls)} through {reuse} buffers"
+        ok, d = same_obs(b, r)
+        if not ok:
+            return False, (f"{what}: the variables hold {b['held']}; batch vs row by row: {d} "
+                           f"(batch: {b.get('error')} {b.get('msg', '')}, rows: {r.get('error')} {r.get('msg', '')})")
+        if b.get("touched"):
+            return False, f"{what}: {b['touched']} (the batch belongs to the caller; a row-by-row run leaves it alone)"
+        if "error" in b or "error" in r:
+            break
+    return True, "ok"
+
+
 def same_tables(b, r, n):
     """`Engine.output_values` and `Engine.values` after a batch of `n` rows against the row-by-row run.  "Row for row" is
     meant literally: the batch has ONE ROW PER ROW of the inputs - `n` rows of output values, `n` rows of input and output
@@ -176,6 +260,12 @@ def oracle(case):
     if case.get("stream"):
         return S_IO.oracle(case)       # accessors of Engine (look-ups, input_values / output_values / values)
     desc, rows = case["engine"], case["rows"]
+    if case.get("calls"):
+        # a history of batches through arrays that are allocated once and refilled in place (then the ordinary comparison
+        # on the last batch, from a fresh engine)
+        ok, d = reused_ok(case)
+        if not ok:
+            return False, d
     if case.get("first"):
         # two successive calls: the second batch continues from the state the first one left
         try:
@@ -301,6 +391,25 @@ def compare(ctx, cases, outs, mism, family="batch"):
                 mism.append({"case": case, "impl": a["values"], "model": str(m[1])[:300], "what": bad})
 
 
+def histories(ctx, cases, mism):
+    """the `reused buffers` family: the property oracle on every case"""
+    st = ctx.stats
+    for case in cases:
+        st.count(case["family"])
+        st.count(f"calls={len(case['calls'])}")
+        ok, detail = oracle(case)
+        got = run_reused(case["engine"], case["calls"], case["reuse"])
+        # non-trivial: a later call in which the variables hold other rows than in the first one and some output is finite
+        nt = any("error" not in b and b["held"] != got[0]["held"] and any(math.isfinite(v) for r in b["values"] for v in r)
+                 for b in got[1:])
+        st.case((repr(case["engine"]), repr(case["calls"]), case["reuse"]), nt)
+        st.validated += 1
+        if not ok:
+            mism.append({"case": case, "violation": True, "detail": detail, "what": detail})
+            if len(mism) > 8:
+                break
+
+
 def model_lines(cases):
     return [C.sx(["process", G.engine_sx(c["engine"]), c["rows"]]) for c in cases]
 
@@ -317,7 +426,16 @@ def correspond(ctx):
         cs = list(S_BL.gen_special_history_cases(ctx)) + list(S_BL.gen_layout_cases(ctx))
         # engines in which (some or all) output variables receive no value per row (drawn after the families above)
         cs += list(S_BL.gen_no_value_per_row_cases(ctx))
-        return model_lines(cs), lambda outs: compare(ctx, cs, outs, later, family="more")
+        # histories of two / three batches through the SAME array objects, refilled in place (drawn after the families above).
+        # The model knows rows, not array objects: these cases are judged on the implementation (`reused_ok` + the ordinary
+        # three-way comparison of the last batch)
+        reused = list(S_BL.gen_reused_buffer_cases(ctx))
+
+        def judge(outs):
+            compare(ctx, cs, outs, later, family="more")
+            histories(ctx, reused, later)
+
+        return model_lines(cs), judge
 
     # the accessors of Engine against Op/EngineIO.lean, Op/InputValues.lean (models of the code ties C02.code_*)
     mism += S_IO.run(ctx, more)
@@ -327,7 +445,7 @@ def correspond(ctx):
 def search(ctx):
     import itertools
     for case in itertools.chain(gen_cases(ctx), S_BL.gen_special_history_cases(ctx), S_BL.gen_layout_cases(ctx),
-                                S_BL.gen_no_value_per_row_cases(ctx)):
+                                S_BL.gen_no_value_per_row_cases(ctx), S_BL.gen_reused_buffer_cases(ctx)):
         ok, d = oracle(case)
         if not ok:
             return [(case, d)]
